@@ -7,6 +7,30 @@ ROOT = os.path.dirname(os.path.dirname(os.path.abspath(__file__)))
 
 # property id -> dict(text, note, technique, design_ref) for claimed checks
 CLAIMED = {
+    'C01': dict(
+        text='Machine-checked over the Lean transcription of maildir.c / message.c I/O / matches_exec / exec / main (programs over libc calls, '
+             'Model/Scripts.lean, Model/Main.lean) executed on an abstract file system under an ARBITRARY fault plan (any number of faults, any '
+             'errno, short transfers): after every call of the execution of any action list (same-device and cross-device move, flag, flags, '
+             'label, add-header, exec, in any order) some entry is bound to a complete version of the message (C01_no_loss, ~2200 lines of '
+             'proofs); the exit status is a function of the error/reject flags (C01_exit_reports_error). The programs are tied to the real '
+             'binary on every run: ~1900 single-fault runs (every call index x errno/short of 18 scenarios incl. stdin delivery) under an '
+             'LD_PRELOAD shim are checked call by call against Model.mainP (same calls, possible results, same final directories and exit status) '
+             'and judged by a tree oracle (each message exactly once intact, no stray, exit 0 only at the final place, failure reported).',
+        note='Trusted: Lean kernel; the abstract file system (applyOk/predict) as model of POSIX; the shim; stdio internals (faults injected at '
+             'fflush/fclose level). The exactly-once / no-stray / reported clauses under single faults are decided by the exhaustive sweep on the '
+             'real binary plus conformance, not by a theorem yet. Known findings F17a-e: failures of close/closedir/fclose(config)/fstatat(mtime)/'
+             'spool cleanup are not reported (exit 0).',
+        technique='Lean 4 proof (invariant over all fault plans of a program-over-calls model) + trace conformance of the real binary + fault sweep'),
+    'C02': dict(
+        text='Machine-checked: for every action list and EVERY fault plan, after EVERY call (= every process-kill point) some entry is bound to a '
+             'complete version of the message (C02_crash_any_prefix), and the same holds for the content on stable storage under the ordered-'
+             'metadata / durable-after-fsync storage model: a copy is flushed, fsync\'ed and closed successfully before the original name is removed '
+             '(C02_power_failure). Tied to the real binary: the process is SIGKILLed before every call of 18 scenarios (~1100 kills, tree must '
+             'keep an intact copy, the killed trace must be a prefix of a run of Model.mainP), and every fault-free real trace is replayed under '
+             'the storage model (no original removed before its copy is complete on stable storage).',
+        note='Trusted: as C01, plus the storage model itself (real power failures are not reproduced); stdio buffering is modelled as: fprintf '
+             'fills a buffer that reaches the file at fflush/fclose.',
+        technique='Lean 4 proof (always-invariant over call prefixes incl. durable content) + kill sweep + trace replay under the storage model'),
     'C03': dict(
         text='Machine-checked (C03_eval_refines_spec, ~2800 lines of proofs): for EVERY environment (regex engine, clock, commands, file '
              'system), message and rule tree of the grammar shape with arbitrary nesting and number of rules - conditions over all/new/old/'
@@ -23,6 +47,26 @@ CLAIMED = {
              'changes" and block selection by "-" are world-level statements not claimed here yet. Known finding F11 (pass crosses block) is '
              'confirmed by two witnesses on every run.',
         technique='Lean 4 proof (simulation between match list and documented rule semantics) + differential execution through the real parser'),
+    'C04': dict(
+        text='Machine-checked: the exit status of Model.mainP under every fault plan is exitStatus of the final flags - 0/1 in maildir mode; with '
+             '"-": 75 iff error, else 1 iff a reject was executed, else 0, constants regenerated from mdsort.c (C04_status_table); a rejected or '
+             'unreadable configuration is an error and nothing but the configuration file is touched (C04_config_error); C02_power_failure '
+             'gives "0 only if stored durably". Tied to the real binary: 40 (thorough 1500) populations with defective messages of 7 kinds '
+             '(exit 1 iff one is present, good messages end where the error-free run puts them, defective ones untouched, second maildir still '
+             'processed, conformance with Model.mainP) and single-fault sweeps of 5 stdin scenarios judged by the MDA contract (75/1/0, spool removed).',
+        note='Trusted: as C01. Error isolation across messages is decided by the populations on the real binary + conformance, not by a theorem. '
+             'Known finding F18 (maildir path within 4 bytes of PATH_MAX ends the run through errc) is not exercised by this check.',
+        technique='Lean 4 proof (status table, config error) + populations and stdin fault sweeps on the real binary with trace conformance'),
+    'C05': dict(
+        text='Machine-checked: with -d in maildir mode Model.mainP issues, for every configuration, population and fault plan, no mutating call '
+             '(create, write, rename, unlink, utimensat, mkdir, rmdir) and no fork for an action (C05_dry_no_mutation); with -n the whole run is '
+             'fopen/fclose of the configuration (C05_syntax_nothing). Tied to the real binary: the C01 corpus incl. stdin mode, configurations '
+             'whose real run fails, targeted pass/attachment shapes and generated rule trees with exec actions, each run with -d and -n: tree '
+             'snapshot (names, contents, mtimes) unchanged, TMPDIR empty, no command executed (helper log), no mutating libc call in the trace, '
+             'conformance with Model.mainP.',
+        note='Trusted: as C01. In stdin mode -d creates and removes its spool below TMPDIR (checked on the real binary; the theorem is stated for '
+             'maildir mode). command conditions may run under -d (they are conditions, not exec actions).',
+        technique='Lean 4 proof (no mutating call on the dry-run path, for all fault plans) + snapshot/trace checks on the real binary'),
     'C08': dict(
         text='Machine-checked: for EVERY well-formed message (Spec.read: no NUL, header block of fields, one empty line, body not starting '
              'with a newline - the domain the property names) and every sequence of header settings (SetOk: no newline/NUL in the value, no '
@@ -107,10 +151,6 @@ CLAIMED = {
 }
 
 NOT_YET = {
-    'C01': 'check under construction (world model + fault-injection shim)',
-    'C02': 'check under construction (world model + kill points)',
-    'C04': 'check under construction',
-    'C05': 'check under construction',
     'C06': 'check under construction',
     'C07': 'check under construction',
     'C13': 'check under construction',
